@@ -104,10 +104,21 @@ RangeValsR(a) ==   \* evaluator::runRange
        ELSE IF step < 0 THEN {x \in (to + 1)..from : (from - x) % (-step) = 0}
        ELSE IF from # to THEN {from} ELSE {}
 
-\* a fixed enumeration order of a finite set (scan order; results of programs in the supported
-\* fragment do not depend on it - checked separately by the order-nondeterministic variant)
-RECURSIVE SetToSeq(_)
-SetToSeq(S) == IF S = {} THEN <<>> ELSE LET x == CHOOSE y \in S : TRUE IN <<x>> \o SetToSeq(S \ {x})
+\* Scan order.  RamOrders (RamData) is a sequence of value sequences; behaviour number V["@ord"] scans every relation
+\* in the lexicographic order induced by ranking values by their position in RamOrders[V["@ord"]] (values not listed
+\* rank after the listed ones, in natural order; integer-only relations).  The empty sequence <<>> stands for TLC's own
+\* fixed enumeration order.  Results of programs without choice-domain must not depend on the order (C03); for
+\* choice-domain every order must give an admissible result (C10).
+RankOf(o, v) == IF \E i \in 1..Len(o) : o[i] = v THEN CHOOSE i \in 1..Len(o) : o[i] = v ELSE 1000000 + v
+RECURSIVE KeyLess(_, _, _, _)
+KeyLess(o, t, u, i) == IF i > Len(t) THEN FALSE
+                       ELSE IF RankOf(o, t[i]) # RankOf(o, u[i]) THEN RankOf(o, t[i]) < RankOf(o, u[i])
+                       ELSE KeyLess(o, t, u, i + 1)
+RECURSIVE SortBy(_, _), ChooseSeq(_)
+SortBy(o, X) == IF X = {} THEN <<>>
+                ELSE LET m == CHOOSE t \in X : \A u \in X \ {t} : KeyLess(o, t, u, 1) IN <<m>> \o SortBy(o, X \ {m})
+ChooseSeq(X) == IF X = {} THEN <<>> ELSE LET x == CHOOSE y \in X : TRUE IN <<x>> \o ChooseSeq(X \ {x})
+SetToSeq(X, V) == IF RamOrders[V["@ord"]] = <<>> THEN ChooseSeq(X) ELSE SortBy(RamOrders[V["@ord"]], X)
 
 InsertT(D, rel, t) == [D EXCEPT ![rel] = IF IsEqrel(rel) THEN EqCloseR(@ \cup {t}) ELSE @ \cup {t}]
 
@@ -124,11 +135,11 @@ EnvSet(env, id, t) == [x \in (DOMAIN env) \cup {id} |-> IF x = id THEN t ELSE en
 
 Exec(op, env, D, V) ==
     CASE op.k = "Scan" ->
-            ScanOver(SetToSeq(D[op.rel]), 1, op, [x \in (DOMAIN env) \ {op.id} |-> env[x]], D, V)
+            ScanOver(SetToSeq(D[op.rel], V), 1, op, [x \in (DOMAIN env) \ {op.id} |-> env[x]], D, V)
       [] op.k = "IndexScan" ->
             LET lo == Bounds(op.lo, env, D, V)  hi == Bounds(op.hi, env, D, V) IN
             IF BoundsUndefined(lo) \/ BoundsUndefined(hi) THEN Res(D, FALSE, TRUE, 0)
-            ELSE ScanOver(SetToSeq({t \in D[op.rel] : InRange(op.rel, t, lo, hi)}), 1, op,
+            ELSE ScanOver(SetToSeq({t \in D[op.rel] : InRange(op.rel, t, lo, hi)}, V), 1, op,
                           [x \in (DOMAIN env) \ {op.id} |-> env[x]], D, V)
       [] op.k \in {"IfExists", "IndexIfExists"} ->
             LET lo == IF op.k = "IndexIfExists" THEN Bounds(op.lo, env, D, V) ELSE <<>>
@@ -138,7 +149,7 @@ Exec(op, env, D, V) ==
                 wit == {t \in cand : cs[t] = "T"}
             IN IF BoundsUndefined(lo) \/ BoundsUndefined(hi) \/ (\E t \in cand : cs[t] = "U") THEN Res(D, FALSE, TRUE, 0)
                ELSE IF wit = {} THEN Res(D, FALSE, FALSE, 0)
-               ELSE LET r == Exec(op.body, EnvSet(env, op.id, CHOOSE t \in wit : TRUE), D, V)
+               ELSE LET r == Exec(op.body, EnvSet(env, op.id, SetToSeq(wit, V)[1]), D, V)
                     IN Res(r.D, FALSE, r.oob, r.att)
       [] op.k \in {"Aggregate", "IndexAggregate"} ->
             LET lo == IF op.k = "IndexAggregate" THEN Bounds(op.lo, env, D, V) ELSE <<>>
@@ -156,7 +167,7 @@ Exec(op, env, D, V) ==
                                      ELSE IF fn = "USUM" THEN SumSeq(s, i + 1, AddW(acc, vals[s[i]][1]))
                                      ELSE IF ~AddOK(acc, vals[s[i]][1]) THEN <<>>
                                      ELSE SumSeq(s, i + 1, acc + vals[s[i]][1])
-                sum == IF fn \in {"SUM", "USUM"} THEN SumSeq(SetToSeq(sel), 1, 0) ELSE <<0>>
+                sum == IF fn \in {"SUM", "USUM"} THEN SumSeq(ChooseSeq(sel), 1, 0) ELSE <<0>>
                 none == fn \in {"MIN", "MAX", "UMIN", "UMAX"} /\ sel = {}       \* min/max over nothing: body not run
                 aggv == CASE fn = "COUNT" -> Cardinality(sel)
                           [] fn \in {"SUM", "USUM"} -> IF sum = <<>> THEN 0 ELSE sum[1]
@@ -173,7 +184,7 @@ Exec(op, env, D, V) ==
             LET as == [i \in 1..Len(op.args) |-> EvalE(op.args[i], env, D, V)] IN
             IF \E i \in 1..Len(op.args) : as[i] = <<>> THEN Res(D, FALSE, TRUE, 0)
             ELSE LET xs == RangeValsR([i \in 1..Len(op.args) |-> as[i][1]])
-                 IN ScanOver(SetToSeq({<<x>> : x \in xs}), 1, op, [x \in (DOMAIN env) \ {op.id} |-> env[x]], D, V)
+                 IN ScanOver(SetToSeq({<<x>> : x \in xs}, V), 1, op, [x \in (DOMAIN env) \ {op.id} |-> env[x]], D, V)
       [] op.k = "Filter" ->
             LET c == EvalC(op.cond, env, D, V) IN
             IF c = "U" THEN Res(D, FALSE, TRUE, 0)
@@ -227,7 +238,7 @@ EmptyDB == [r \in RelNamesR |-> {}]
 Init == /\ ei \in 1..Len(RamEDBs)
         /\ db = EmptyDB
         /\ stack = Norm(<<Frame(RamProg.main)>>)
-        /\ vars = [x \in {} |-> 0]
+        /\ \E o \in 1..Len(RamOrders) : vars = ("@ord" :> o)
         /\ outs = [x \in {} |-> {}]
         /\ oob = FALSE
         /\ last = [e |-> "Init", sid |-> -1, att |-> 0, taken |-> FALSE]
